@@ -115,7 +115,9 @@ func newRichDoc(c *fw.Case) *richDoc {
 		}
 		row["grid"] = grid
 		// an object whose flattened member names meet keys that exist already
-		row["cfg"] = map[string]any{"db_host": "x", "db": map[string]any{"host": "y", "port": float64(c.Intn(9))}, "a_b": 1.0, "a": map[string]any{"b": 2.0, "c_d": 3.0, "c": map[string]any{"d": 4.0}}}
+		row["cfg"] = map[string]any{"db_host": "x", "db": map[string]any{"host": "y", "port": float64(c.Intn(9))}, "a_b": 1.0, "a": map[string]any{"b": 2.0, "c_d": 3.0, "c": map[string]any{"d": 4.0}},
+			// two nested sections whose members flatten to one name
+			"smtp": map[string]any{"host_name": "m1", "port": 25.0}, "smtp_host": map[string]any{"name": "m2"}, "cache": map[string]any{"ttl_ms": map[string]any{"value": 1.0}}, "cache_ttl": map[string]any{"ms_value": 2.0}}
 		row["obj"].(map[string]any)["tags"] = []any{1.0, 1.0, 2.0, 3.0}
 	}
 	u := gen.RandTable(c.R, gen.TableSpec{Name: "u1", MaxRows: 4, NumCols: 1, StrCols: 1, StrStyle: gen.Plain, ColPrefix: "u"})
